@@ -7,6 +7,7 @@
 -/
 import Jawk.Props.C17Steps
 import Jawk.Lemmas.Locality
+import Jawk.Props.Tables
 namespace Jawk.C17
 open Jawk Loc
 
